@@ -336,6 +336,7 @@ TCSet ==
          good == \/ old.unspec \/ std.unspec \/ ~old.valid
                  \/ /\ Ev.href \in {oldH, stdH}
                     /\ (Ev.has_ret /\ ~Ev.ret => Ev.href = oldH)
+                    /\ (Ev.has_ret /\ Ev.ret => Ev.href = stdH)     \* a call that reports success has applied the Standard's result
                     /\ (Len(stdH) > hi => Ev.href = oldH)
                     /\ (Len(stdH) <= lo /\ Len(Ev.v) <= lo => Ev.href = stdH)
      IN ndiag' = ndiag + (IF good THEN 0
